@@ -11,16 +11,17 @@ tvars == <<vars, i, seen, idmap, closesSeen, lastRet>>
 
 KeyIdx(k) == CHOOSE j \in 1..Len(cfg.rows) : cfg.rows[j].key = k
 Empty == [x \in {} |-> 0]
-Dummy == [rows |-> <<>>, splits |-> <<>>, start |-> <<>>, stop |-> <<>>, reversed |-> FALSE, partial |-> FALSE]
+Dummy == [rows |-> <<>>, splits |-> <<>>, start |-> <<>>, stop |-> <<>>, reversed |-> FALSE, partial |-> FALSE, renew |-> FALSE]
 TInit == cfg = Dummy /\ InitRest /\ i = 1 /\ seen = 0 /\ idmap = Empty /\ closesSeen = {} /\ lastRet = <<>>
 
 Consume == i' = i + 1
 Keep == UNCHANGED <<seen, idmap, closesSeen, lastRet>>
 
 EvStart(e) ==
-  /\ cfg' = [rows |-> e.rows, splits |-> e.splits, start |-> e.start, stop |-> e.stop, reversed |-> e.reversed, partial |-> e.partial]
+  /\ cfg' = [rows |-> e.rows, splits |-> e.splits, start |-> e.start, stop |-> e.stop, reversed |-> e.reversed, partial |-> e.partial,
+             renew |-> IF "renew" \in DOMAIN e THEN e.renew ELSE FALSE]
   /\ scn' = Empty /\ nextId' = 1 /\ startRow' = e.start /\ curId' = 0 /\ curReg' = 0 /\ buf' = <<>> /\ closed' = FALSE
-  /\ renewing' = FALSE /\ pc' = "idle" /\ acc' = NoAcc /\ opening' = FALSE /\ outs' = <<>> /\ closeSent' = {}
+  /\ renewing' = FALSE /\ renewId' = 0 /\ ticks' = 0 /\ orphans' = {} /\ pc' = "idle" /\ acc' = NoAcc /\ opening' = FALSE /\ outs' = <<>> /\ closeSent' = {}
   /\ cancelled' = FALSE /\ errors' = 0 /\ ctxReported' = FALSE /\ userClosed' = FALSE /\ earlyEnded' = FALSE
   /\ seen' = 0 /\ idmap' = Empty /\ closesSeen' = {} /\ lastRet' = <<>>
 
@@ -52,6 +53,9 @@ TNext ==
                \* the harness server cut the answer as the specification's server would
                /\ \A j \in 1..Len(e.chunk) : /\ cfg.rows[buf'[j].row].key = e.chunk[j].row
                                               /\ buf'[j].n = e.chunk[j].ncells /\ buf'[j].partial = e.chunk[j].partial
+          [] e.ev = "scanRenew" ->   \* a renewal tick between two Next calls: for the region scanner the renewer was started for
+               /\ RenewTick /\ UNCHANGED cfg /\ Keep
+               /\ e.known /\ renewId \in DOMAIN idmap /\ idmap[renewId] = e.scanner
           [] e.ev = "scanExc" -> RequestFails("err") /\ UNCHANGED cfg /\ Keep
           [] e.ev = "scanClose" -> closesSeen' = closesSeen \cup {e.scanner} /\ UNCHANGED <<vars, seen, idmap, lastRet>>
           [] e.ev = "cancel" -> Cancel /\ UNCHANGED cfg /\ Keep
